@@ -365,6 +365,11 @@ class CallMixin:
                 return [(st, self.classes_of(st, v)[0])]
             if not is_sym(v):
                 return [(st, type(v))]
+            for wrapper, pytype in ((SBool, bool), (SInt, int), (SStr, str), (SSlice, slice)):
+                if isinstance(v, wrapper):
+                    return [(st, pytype)]
+            if isinstance(v, SEnum):
+                return [(st, v.cls)]
             raise Unsupported("type() of symbolic value", node)
         if f is callable:
             return [(st, callable(args[0]))] if not is_sym(args[0]) else self._unsup("callable", node)
